@@ -146,10 +146,17 @@ class Fn:
 
 
 def test_ranges(code):
-    """Ranges of `#[cfg(test)] mod … { … }` blocks."""
+    """Ranges of `#[cfg(test)] mod … { … }` blocks and of the items guarded by the verification
+    hooks' flag `#[cfg(dmntk_verif)]` (fn, impl or mod: not part of the code when the guard is off)."""
     res = []
     for m in re.finditer(r"#\[cfg\(test\)\]\s*(?:pub\s+)?mod\s+\w+\s*\{", code):
         b = code.index("{", m.start())
+        res.append((m.start(), match_brace(code, b)))
+    for m in re.finditer(r"#\[cfg\(dmntk_verif\)\]", code):
+        b = code.find("{", m.end())
+        semi = code.find(";", m.end())
+        if b < 0 or (0 <= semi < b):
+            continue  # a guarded declaration without a body
         res.append((m.start(), match_brace(code, b)))
     return res
 
